@@ -177,7 +177,7 @@ func (s *Service) Handle(ctx context.Context, conn net.Conn) error {
 		rcvMsg <- msg
 	}
 	// Start server loop
+	defer close(done)
 	c.serve()
-	close(done)
 	return nil
 }
